@@ -1037,7 +1037,14 @@ class _Tree(_ArithmeticMixin, _Base):
             min = self._to_key(min)
             bucket = self._findbucket(min)
         if bucket is not None:
-            return bucket.minKey(min)
+            try:
+                return bucket.minKey(min)
+            except ValueError:
+                # min lies in the gap after this leaf's last key: the
+                # answer, if there is one, is the first key of the next leaf
+                if bucket._next is None:
+                    raise
+                return bucket._next.minKey()
         raise ValueError('empty tree')
 
     def maxKey(self, max=_marker):
